@@ -187,6 +187,7 @@ def t_histories(depth, only=None):
 	from mc.props.c13 import late_fault_file
 	from gambit.seq import SequenceFile
 	from gambit.sigs.calc import calc_file_signature
+	fixtures.reset_gambit_globals()
 	sh = Shard()
 	for ks in (fixtures.kspec(11, 'ATGAC'), fixtures.kspec(12, 'ATGAC')):
 		with fixtures.workdir('c06h') as d:
@@ -200,6 +201,7 @@ def t_histories(depth, only=None):
 			for hist in ([tuple(only)] if only else itertools.product(events, repeat=depth)):
 				if not only and not any(e in good for e in hist[1:]):
 					continue
+				fixtures.reset_gambit_globals()          # every history starts from the state of a freshly imported library
 				for step, ev in enumerate(hist):
 					sh.evals += 1
 					try:
